@@ -556,7 +556,7 @@ class Interp:
         # 1. invariant holds on entry (i = 0)
         ctx.i = z3.IntVal(0)
         for nm, g in lc.inv(ctx):
-            P.oblige("%s/inv-init/%s" % (tag, nm), g)
+            P.oblige(self._inv_name(tag, "inv-init", nm), g)
         # 2. choose: verify an arbitrary iteration, or continue after the loop
         mode = P.choice(2, "loop %s" % tag)
         tnames = {n.id for n in ast.walk(st.target) if isinstance(n, ast.Name)}
@@ -580,7 +580,7 @@ class Interp:
                 ctx.i = i + 1
                 lc.check_frame(ctx, self.write_log_pop()) if hasattr(lc, "check_frame") else self.write_log_pop()
                 for nm, g in lc.inv(ctx):
-                    P.oblige("%s/inv-step/%s" % (tag, nm), g)
+                    P.oblige(self._inv_name(tag, "inv-step", nm), g)
                 raise PathEnd()
             except BreakEx:
                 self.write_log_pop_safe()
@@ -629,14 +629,26 @@ class Interp:
                 raise PathEnd()
             self.exec_block(st.orelse, env, module, qual)
 
+    @staticmethod
+    def _inv_name(tag, phase, nm):
+        """Invariant items may carry their own property tag: "PROPS:name"."""
+        if ":" in nm and "|" in tag:
+            props, rest = nm.split(":", 1)
+            return "%s|%s/%s/%s" % (props, tag.split("|", 1)[1], phase, rest)
+        return "%s/%s/%s" % (tag, phase, nm)
+
     def write_log_push(self):
         self._wl_stack = getattr(self, "_wl_stack", [])
-        self._wl_stack.append(self.write_log)
+        self._wl_stack.append((self.write_log, getattr(self, "_wl_mark", 0)))
         self.write_log = []
+        self._wl_mark = next_serial()      # objects created from here on are fresh
 
     def write_log_pop(self):
-        wl = self.write_log
-        self.write_log = self._wl_stack.pop()
+        mark = self._wl_mark
+        # writes to objects allocated inside the region being logged are not frame-relevant
+        wl = [w for w in self.write_log
+              if not (w[0] in ("field", "list", "dict") and getattr(w[1], "serial", 0) > mark)]
+        self.write_log, self._wl_mark = self._wl_stack.pop()
         if self.write_log is not None:
             self.write_log.extend(wl)
         return wl
@@ -656,7 +668,7 @@ class Interp:
             o = RObj(it.region, i)
             if it.kind == "items":
                 return (Sym(z3.Select(it.keys, i)), o)
-            if it.kind == "keys":
+            if it.kind in ("keys", "dict"):
                 return Sym(z3.Select(it.keys, i))
             return o
         raise OutOfReach("seq_at %r" % it)
@@ -676,7 +688,7 @@ class Interp:
             idx = self.ev_slice(target.slice, env)
             self.setitem(obj, idx, v)
         elif isinstance(target, (ast.Tuple, ast.List)):
-            items = self.iterate(v, for_unpack=True)
+            items = self.iterate(v, for_unpack=len(target.elts))
             if len(items) != len(target.elts):
                 self.raise_builtin("ValueError", "not enough values to unpack" if len(items) < len(target.elts) else "too many values to unpack")
             for t, x in zip(target.elts, items):
@@ -790,6 +802,14 @@ class Interp:
 
     def ex_BoolOp(self, node, env):
         is_and = isinstance(node.op, ast.And)
+        if self.spec_mode:
+            # term-building evaluation (no forking, no short circuit): used for
+            # filter conditions evaluated at a generic, bound index
+            ts = []
+            for e in node.values:
+                v = self.ev(e, env)
+                ts.append(smt.truthy(self.to_term(v)) if isinstance(v, Sym) else z3.BoolVal(bool(self.truth(v))))
+            return Sym(VBool(S(z3.And(*ts) if is_and else z3.Or(*ts))))
         v = None
         for i, e in enumerate(node.values):
             v = self.ev(e, env)
@@ -1011,7 +1031,12 @@ class Interp:
         P = self.prover
         for rec, k in ((is_str, "str"), (is_int, "int"), (is_none, "none"), (is_ref, "ref"),
                        (is_bool, "bool"), (is_real, "real"), (is_bytes, "bytes")):
-            if P.fork(rec(t)):
+            c = rec(t)
+            if not P.sat(c):
+                continue
+            if not P.sat(z3.Not(c)):
+                return k            # forced by the path condition
+            if P.fork(c):
                 return k
         raise Infeasible()
 
